@@ -1567,6 +1567,10 @@ private:
       // Since the error has already been handled in _populate_formatted_log_message,
       // there is no additional action required here.
     }
+    QUILL_CATCH_ALL()
+    {
+      // same for exceptions not derived from std::exception
+    }
 #endif
   }
 
@@ -1596,6 +1600,20 @@ private:
         fmtquill::format(R"([Could not format log statement. message: "{}", location: "{}", error: "{}"])",
                          transit_event->macro_metadata->message_format(),
                          transit_event->macro_metadata->short_source_location(), e.what());
+
+      transit_event->formatted_msg->append(error);
+      _options.error_notifier(error);
+    }
+    QUILL_CATCH_ALL()
+    {
+      // A user defined formatter can throw anything. If the exception escaped from here the record
+      // would never be marked as read and the backend would decode the same record again on every
+      // poll, blocking everything behind it.
+      transit_event->formatted_msg->clear();
+      std::string const error = fmtquill::format(
+        R"([Could not format log statement. message: "{}", location: "{}", error: "unknown exception"])",
+        transit_event->macro_metadata->message_format(),
+        transit_event->macro_metadata->short_source_location());
 
       transit_event->formatted_msg->append(error);
       _options.error_notifier(error);
